@@ -418,6 +418,10 @@ func (cs *clientStream) doHttpCall(transport http.RoundTripper, req *http.Reques
 		defer cs.rMu.Unlock()
 
 		if rErr != nil && cs.rErr == nil {
+			if _, ok := status.FromError(rErr); !ok && cs.ctx.Err() != nil {
+				// reading the response was aborted because the context ended
+				rErr = statusFromContextError(cs.ctx.Err())
+			}
 			cs.rErr = rErr
 		}
 		cs.done = true
